@@ -195,6 +195,8 @@ fixed("C05", "date-part-seconds-without-whole-seconds", "6937ab428", "date_part/
 fixed("C05", "date-trunc-toward-zero", "156553785", "date_trunc rounded toward zero, i.e. up for timestamps before 1970", [])
 fixed("C05", "case-untyped-null-first-branch", "c6e110634", "CASE WHEN .. THEN NULL ELSE 1 END failed to bind (ELSE cast to the Null type)", ["C18"])
 fixed("C05", "decimal-meta-null-and-ubigint", "a0d366b6b", "DECIMAL compared with an untyped NULL failed to bind; UBIGINT -> DECIMAL used precision 19 (20 digits needed)", ["C18", "C13"])
+fixed("C19", "pq-integer-logical-type-width-panic", "980b7a63d", "a corrupt footer with an INTEGER logical type of undefined bit width panicked in basic.rs (From<Option<LogicalType>> for ConvertedType)", ["C15"])
+fixed("C15", "sort-key-list-unimplemented-panic", "b130a9374", "ORDER BY on a LIST (or STRUCT) key hit unimplemented!() in SortLayout::try_new: panic on the caller's thread (SELECT [1] a ORDER BY a)", ["C08", "C18"])
 fixed("C17", "csv-last-record-without-newline-dropped", "901a81dae", "read_csv dropped the last record of a file not ending in a line break", ["C11"])
 fixed("C17", "csv-inference-ignores-unterminated-last-record", "8f587fc55", "dialect/type inference ignored the final record without line break even when the whole file was in the sample", [])
 fixed("C17", "csv-partial-record-leading-empty-fields-lost", "5395bbc8c", "leading empty fields of a record split across reads were lost (clear_completed discarded field ends of a partial record with no bytes yet), so results depended on read chunking/batch size", ["C03", "C16"])
